@@ -74,7 +74,7 @@ var c07Sites = map[string][]string{
 	"indexfromfile": {"pchunk.next", "pchunk.send", "pchunk.sync", "pchunk.skip", "pchunk.syncrecv", "pchunk.nullrecv"},
 	"untarindex":    {"untarindex.feed", "st.get", "fs.create"},
 	"untar":         {"fs.create", "rd.read"},
-	"tar":           {"fs.next", "wr.write"},
+	"tar":           {"fs.next", "wr.write", "fd.read"},
 }
 
 // feeder site of the six pool-shaped entry points (model correspondence)
